@@ -241,6 +241,15 @@ func c04Run(j *rt.Job, seed uint64, r *rt.Rec) {
 			return
 		}
 	}
+	// a long message (beyond 64 KiB): valid, and not valid with its last byte changed
+	if j.Bool("full") {
+		kl := c.newLib()
+		long := rt.NewRand(uint64(c.H), "c04long/"+c.Seed).Bytes(65537 + c.HF*40000)
+		lsig, _ := kl.Sign(long)
+		if !x.judge("valid-long-message", long, lsig, pk, "accept", true) || !x.judge("long-message-last-byte", flipBit(long, len(long)*8-1), lsig, pk, "reject", true) {
+			return
+		}
+	}
 	// 4. substitutions
 	other := XCfg{H: c.H, HF: c.HF, Seed: rt.Hex(rng.Bytes(48))}
 	ko := other.newLib()
@@ -310,6 +319,22 @@ func c04Run(j *rt.Job, seed uint64, r *rt.Rec) {
 			if !x.judge("sig-blocks-removed-desc-rewritten", msg, cut, p, "ref", true) {
 				return
 			}
+		}
+	}
+	// the boundary between signature and message moved: the same concatenated bytes, split elsewhere
+	if len(msg) >= 1 {
+		for _, k := range []int{1, len(msg) / 2, len(msg), 32, 64} {
+			if k <= 0 || k > len(msg) {
+				continue
+			}
+			if !x.judge("boundary-shift-sig-longer", msg[k:], append(mutS(), msg[:k]...), pk, "ref", true) {
+				return
+			}
+		}
+	}
+	for _, k := range []int{1, 32, 64, 33} {
+		if !x.judge("boundary-shift-sig-shorter", append(append([]byte(nil), sig[len(sig)-k:]...), msg...), sig[:len(sig)-k], pk, "ref", true) {
+			return
 		}
 	}
 	// message with zero bytes appended up to / stripped back to a 32-byte boundary
@@ -406,6 +431,10 @@ func c04Run(j *rt.Job, seed uint64, r *rt.Rec) {
 			}
 		}
 	}
+	// canary: the valid triple must still be accepted after everything the verifier has seen
+	if !x.judge("valid-after-history", msg, sig, pk, "accept", true) {
+		return
+	}
 	r.Sample(map[string]interface{}{"cfg": c.String(), "index": idx, "msg_len": len(msg), "classes": "pk flips, sig flips, msg edits, substitutions, hostile descriptors"})
 }
 
@@ -481,6 +510,25 @@ func c04Replay(cs map[string]interface{}) (bool, string) {
 // its neighbours (index +-1, one authentication node changed, message changed).
 func c04Sparse(j *rt.Job, x *c04Ctx) {
 	rng, r := x.rng, x.r
+	// heights the scheme does not support (0, 2, and odd ones squeezed into the size): a triple that would be
+	// consistent for such a tree must not be accepted
+	for _, h := range []int{2, 1, 3} {
+		for hf := 0; hf < 3; hf++ {
+			sec := xmssref.Expand(rng.Bytes(48))
+			for idx := uint32(0); idx < uint32(1)<<uint(h); idx++ {
+				msg := rng.Bytes(rng.Intn(40))
+				sig, pk := sec.SparseTriple(xmssref.Hash(hf), h, idx, msg, rng.Bytes(32*h), [3]byte{byte(hf), byte(h / 2), 0})
+				if !x.judge("sparse-unsupported-height", msg, sig, pk, "ref", true) {
+					return
+				}
+				pk2 := append([]byte(nil), pk...)
+				pk2[1] = byte((h + 1) / 2)
+				if !x.judge("sparse-unsupported-height", msg, sig, pk2, "ref", true) {
+					return
+				}
+			}
+		}
+	}
 	for h := 4; h <= 30; h += 2 {
 		hf := (h/2 + j.Int("batch")) % 3
 		sec := xmssref.Expand(rng.Bytes(48))
